@@ -1,5 +1,5 @@
 //! values of the correspondence protocol and their text encoding (implementation side)
-use geonum::traits::Activation;
+#[cfg(any(feature = "ml", feature = "all"))] use geonum::traits::Activation;
 use geonum::{Angle, Geonum};
 use std::cmp::Ordering;
 
@@ -11,7 +11,7 @@ pub enum Val {
     A(Angle),
     G(Geonum),
     L(Vec<Geonum>),
-    T(Activation),
+    #[cfg(any(feature = "ml", feature = "all"))] T(Activation),
 }
 
 impl Val {
@@ -21,7 +21,7 @@ impl Val {
     pub fn a(&self) -> Option<Angle> { if let Val::A(x) = self { Some(*x) } else { None } }
     pub fn g(&self) -> Option<Geonum> { if let Val::G(x) = self { Some(*x) } else { None } }
     pub fn l(&self) -> Option<Vec<Geonum>> { if let Val::L(x) = self { Some(x.clone()) } else { None } }
-    pub fn t(&self) -> Option<Activation> { if let Val::T(x) = self { Some(*x) } else { None } }
+    #[cfg(any(feature = "ml", feature = "all"))] pub fn t(&self) -> Option<Activation> { if let Val::T(x) = self { Some(*x) } else { None } }
 }
 
 pub fn ff(x: f64) -> String {
@@ -42,6 +42,7 @@ pub fn fl_in(l: &[Geonum]) -> String {
 pub fn fo(o: Ordering) -> &'static str {
     match o { Ordering::Less => "lt", Ordering::Equal => "eq", Ordering::Greater => "gt" }
 }
+#[cfg(any(feature = "ml", feature = "all"))]
 pub fn ft(t: Activation) -> &'static str {
     match t { Activation::ReLU => "relu", Activation::Sigmoid => "sigmoid", Activation::Tanh => "tanh", Activation::Identity => "identity" }
 }
@@ -54,7 +55,7 @@ pub fn enc(v: &Val) -> String {
         Val::A(a) => fa_in(a),
         Val::G(g) => fg_in(g),
         Val::L(l) => fl_in(l),
-        Val::T(t) => ft(*t).to_string(),
+        #[cfg(any(feature = "ml", feature = "all"))] Val::T(t) => ft(*t).to_string(),
     }
 }
 
@@ -92,6 +93,7 @@ pub fn pl(s: &str) -> Option<Vec<Geonum>> {
     if items.len() != n { return None; }
     items.into_iter().map(pg).collect()
 }
+#[cfg(any(feature = "ml", feature = "all"))]
 pub fn pt(s: &str) -> Option<Activation> {
     Some(match s { "relu" => Activation::ReLU, "sigmoid" => Activation::Sigmoid, "tanh" => Activation::Tanh, "identity" => Activation::Identity, _ => return None })
 }
@@ -103,7 +105,7 @@ pub fn parse_arg(kind: char, s: &str) -> Option<Val> {
         'A' => Val::A(pa(s)?),
         'G' => Val::G(pg(s)?),
         'L' => Val::L(pl(s)?),
-        'T' => Val::T(pt(s)?),
+        #[cfg(any(feature = "ml", feature = "all"))] 'T' => Val::T(pt(s)?),
         _ => return None,
     })
 }
